@@ -5,6 +5,9 @@ import os
 import sys
 import warnings
 
+if hasattr(sys, "set_int_max_str_digits"):
+    sys.set_int_max_str_digits(0)   # exact counts can have thousands of digits
+
 warnings.simplefilter("ignore")
 sys.setrecursionlimit(10000)
 
